@@ -286,7 +286,7 @@ class SocksRun(object):
     def draw_server(self):
         ch = self.ch
         c05 = self.prop == 'C05'
-        k = ch.weighted([14, 1, 1, 1] if c05 else [1, 0, 0, 0], 'method')
+        k = ch.weighted([14, 1, 1, 1] if c05 else [12, 1, 1, 1], 'method')
         self.method_reply = [b'\x05\x00', b'\x05\xff', b'\x05\x02', b'\x04\x00'][k]
         if k in (1, 2):
             self.sim.probe('method-rejected')
@@ -578,7 +578,13 @@ class SocksRun(object):
         closed = self.conn.client_gone
         delivered = bytes(self.peer.sent[:self.conn.total_s2c_delivered])
         m = self.model(delivered, closed)
+        if self.method_reply != b'\x05\x00' and len(self.peer.all) > 3:
+            sim.fail(prop + '.request-although-method-not-selected',
+                     'the server answered the greeting with %s (it did not select "no authentication") but the client went on to send %s' % (
+                         self.method_reply.hex(), bytes(self.peer.all[3:]).hex()[:60]))
         if prop == 'C06':
+            if self.method_reply != b'\x05\x00':
+                return
             if self.request_seen is None and m[0] != 'fail':
                 sim.fail('C06.request-incomplete-or-missing',
                          'server never received a complete request; got %s after the greeting (target %r port %d %s)' % (
